@@ -114,13 +114,16 @@ func putTok(kind string, t tokenizers.ITokenizer) {
 }
 
 func setOptions(t tokenizers.ITokenizer, bits int) {
-	t.SetSkipUnknown(bits&optSkipUnknown != 0)
-	t.SetSkipWhitespaces(bits&optSkipWhitespaces != 0)
-	t.SetSkipComments(bits&optSkipComments != 0)
-	t.SetSkipEof(bits&optSkipEof != 0)
-	t.SetMergeWhitespaces(bits&optMergeWhitespaces != 0)
-	t.SetUnifyNumbers(bits&optUnifyNumbers != 0)
-	t.SetDecodeStrings(bits&optDecodeStrings != 0)
+	// the seven setters are called in the rotation that ends with the setter of the highest option switched on (the
+	// last one for the empty set): the outcome of configuring must not depend on which setter happens to be called last
+	last := 6
+	for i := 6; i >= 0; i-- {
+		if bits&(1<<uint(i)) != 0 {
+			last = i
+			break
+		}
+	}
+	setOptionsRotated(t, bits, last)
 }
 
 // tk is a harness-side copy of a token.
@@ -158,7 +161,29 @@ func tokenizeCapped(t tokenizers.ITokenizer, input string, hasNext int) ([]tk, *
 	limit := len([]rune(input)) + 2
 	var nonTerm bool
 	f := guard(func() {
-		t.SetReader(newBudgetScanner(input))
+		sc := newBudgetScanner(input)
+		if mode := rescanFirst(input); mode == 2 {
+			// ... or only peeked into (one has-next query, nothing fetched) before the caller rewound it
+			t.SetReader(sc)
+			t.HasNextToken()
+			full := newBudgetScanner(input)
+			sc.Reset()
+			sc.budget = full.budget
+		} else if mode == 1 {
+			// a quarter of the inputs are read as a second pass: the same scanner object has been tokenized to its end
+			// by this tokenizer already and was rewound by the caller; what the second pass delivers is what every
+			// oracle above this helper judges
+			t.SetReader(sc)
+			for n := 0; n <= limit; n++ {
+				if tok := t.NextToken(); tok == nil || tok.Type() == tokenizers.Eof {
+					break
+				}
+			}
+			full := newBudgetScanner(input)
+			sc.Reset()
+			sc.budget = full.budget
+		}
+		t.SetReader(sc)
 		for {
 			for i := 0; i < hasNext; i++ {
 				t.HasNextToken()
@@ -181,6 +206,24 @@ func tokenizeCapped(t tokenizers.ITokenizer, input string, hasNext int) ([]tk, *
 		return out, evid.F("nontermination:token-cap", "more than %d tokens for %d characters of input %q", limit, limit-2, input)
 	}
 	return out, nil
+}
+
+// rescanFirst selects, by content, the inputs that are read as a second pass over a rewound scanner.
+func rescanFirst(input string) int {
+	h := len(input) * 7
+	for i := 0; i < len(input); i++ {
+		h = h*33 + int(input[i])
+	}
+	if h < 0 {
+		h = -h
+	}
+	switch h % 8 {
+	case 1, 5:
+		return 1
+	case 3:
+		return 2
+	}
+	return 0
 }
 
 func runesOf(parts []string) string { return strings.Join(parts, "") }
